@@ -2,6 +2,7 @@
 //!       [--part FILE] [--replay-dir DIR] [--known FILE] [--label L]
 //! rvmon <property> --replay FILE
 //! rvmon <property> --case-seed N [--index I]
+//! rvmon <property> --tape FILE          (a libFuzzer input: choice tape of the property's generator)
 use std::{collections::BTreeMap, path::PathBuf};
 
 use rvmon::{
@@ -22,6 +23,7 @@ struct Args {
     replay_dir: PathBuf,
     replay: Option<PathBuf>,
     case_seed: Option<u64>,
+    tape: Option<PathBuf>,
     index: u64,
     label: String,
     watchdog: u64,
@@ -41,6 +43,7 @@ fn parse() -> Args {
         replay_dir: PathBuf::from("/verif/replay"),
         replay: None,
         case_seed: None,
+        tape: None,
         index: 0,
         label: "native".into(),
         watchdog: 300,
@@ -64,6 +67,7 @@ fn parse() -> Args {
             "--replay-dir" => a.replay_dir = val().into(),
             "--replay" => a.replay = Some(val().into()),
             "--case-seed" => a.case_seed = Some(val().parse().expect("case seed")),
+            "--tape" => a.tape = Some(val().into()),
             "--index" => a.index = val().parse().expect("index"),
             "--label" => a.label = val(),
             "--watchdog" => a.watchdog = val().parse().expect("watchdog"),
@@ -163,6 +167,22 @@ fn drive<M: Monitor>(m: &M, a: &Args) -> i32 {
             }
             Err(e) => {
                 println!("INCONCLUSIVE replay could not be loaded: {e}");
+                2
+            }
+        };
+    }
+    if let Some(path) = &a.tape {
+        // a fuzzer input: the choice tape of this property's generator
+        let data = std::fs::read(path).expect("read tape");
+        let mut rng = rvmon::gener::Rng::from_tape(&data);
+        let case = m.generate(&mut rng, a.tier, 0);
+        return match campaign::replay(m, a.tier, serde_json::to_value(&case).unwrap_or(Value::Null)) {
+            Ok(rep) => {
+                println!("tape: {} violation(s) {:?}", rep.violations.len(), rep.violation_counts);
+                if rep.violations.is_empty() { 0 } else { 1 }
+            }
+            Err(e) => {
+                println!("INCONCLUSIVE tape case could not be rebuilt: {e}");
                 2
             }
         };
